@@ -137,7 +137,7 @@ def runStage (p : PeerTracker) (r : Req) (e : Ext) : Stage → Option PeerTracke
     match e.key with
     | .absent => some p
     | .bad => none
-    | .ok k => some (p.dedupKey r k)
+    | .ok k => some (p.setDedupKey r k)
   | .doNotSendCids =>
     match e.ignore with
     | .absent => some p
@@ -389,7 +389,8 @@ def attach (skip : Int) (excluded : Cid → Bool) : Nat → List Cid → List (C
     ⟨c, pres, pres && decide (skip < ((i + 1 : Nat) : Int)) && !excluded c && !seen.contains c⟩
       :: attach skip excluded (i + 1) (if pres then c :: seen else seen) es
 
-/-- literal reading of the property sentence: "... and not already *sent*": a block is only
+/-- the other (per-link) reading of the property sentence — not the one adopted, see GSProofs/C03.lean:
+"... and not already *sent*": a block is only
 withheld as a duplicate if an earlier link of this request actually carried it. -/
 def attachLiteral (skip : Int) (excluded : Cid → Bool) : Nat → List Cid → List (Cid × Bool) → List Item
   | _, _, [] => []
